@@ -22,9 +22,13 @@ S3 ties (harness/c08_rangecoder.c vs. OpusModel.RangeCoder through Driver.SuiteR
                        reproduce the exact bytes and final coder state; plus, model-free, the real silk_Decode run on those bytes
                        must read back exactly the recorded frames and end with the encoder's rng / ec_tell
   rangecoder-opusframe harness/c08_silkpacket.c mode `oframe`: the REAL opus_encode forced to SILK-only mode (VBR, FEC on in 60% of the
-                       streams, mono/stereo, NB/MB/WB, 10-60 ms), same recording wrappers; model: OpusModel.OpusFrameEnc.silkOnlyFrame
-                       (SILK payload, ret=(ec_tell+7)>>3, ec_enc_done, trailing-zero strip) must reproduce the packet's payload
-                       bytes and OPUS_GET_FINAL_RANGE
+                       streams, mono/stereo, NB/MB/WB with bandwidth switches, 10-60 ms), same recording wrappers; model:
+                       OpusModel.OpusFrameEnc.silkOnlyFrame (SILK payload, ret=(ec_tell+7)>>3, ec_enc_done, trailing-zero strip)
+                       must reproduce the packet's payload bytes and OPUS_GET_FINAL_RANGE; packets to which the encoder appended
+                       a 5 ms redundancy frame (bandwidth switch; both celt_to_silk values) are lines `oframer`: a wrapper around
+                       celt_encode_with_ec records the frame's bytes R and the CELT encoder's final range, and the model
+                       silkRedFrame (celt_to_silk bit, cut at (ec_tell+7)>>3 without strip, R behind, rangeFinal = rng ^ redundant_rng)
+                       must reproduce payload and final range
 S4 search: the property predicates evaluated on the implementation alone (harness modes `search` / `prop`):
   P1 round trip when the encoder reports no error, P2 tell/tell_frac bounds, monotonicity, range invariant and
   encoder/decoder agreement, P3 guard bytes and bytes beyond the current storage untouched, P4 tell <= 8*storage
@@ -85,9 +89,10 @@ NOT_COVERED = [
     'was coded more than once; DTX / zero-length payloads and the redundancy / hybrid hand-over behind the SILK data are not modelled '
     'on the encoder side; pulses of value -128 (opus_int8 minimum, which (opus_int8)silk_abs mangles) are outside PulsesOk',
     'frame-level lock step (opus_frame_lockstep_silk / _silk_red / _hybrid): theorems about the op-level models of '
-    'opus_encode_frame_native (OpusModel/OpusFrameEnc.lean) and C03\'s decodeOpusFrame; only the SILK-only model without redundancy '
-    '(silkOnlyFrame) has a correspondence run (rangecoder-opusframe: real opus_encode payload bytes and final range); silkRedFrame / '
-    'hybridFrame have none (the implementation side of "decoder final range = encoder final range" is C02\'s lock-step search and '
+    'opus_encode_frame_native (OpusModel/OpusFrameEnc.lean) and C03\'s decodeOpusFrame; the SILK-only models (silkOnlyFrame, and '
+    'silkRedFrame with the redundancy frame\'s bytes and final range as inputs) have a correspondence run (rangecoder-opusframe: real '
+    'opus_encode payload bytes and final range); '
+    'hybridFrame has none (the implementation side of "decoder final range = encoder final range" is C02\'s lock-step search and '
     'C03\'s ties); the CELT '
     'symbol layer enters the _silk_red and _hybrid theorems only through the hypothesis CeltFrameRT (C17\'s celt_frame_roundtrip is '
     'to discharge it) and the CELT encoder\'s operations on the shared coder are an input (`celtOps`); the decoder-side length '
@@ -127,7 +132,7 @@ QUICK_SPACKET, THOROUGH_SPACKET = 300, 5000     # streams of 3..14 packets
 QUICK_OFRAME, THOROUGH_OFRAME = 200, 3000       # streams of 3..12 packets
 SPACKET_WRAP = ['-Wl,' + ','.join('--wrap=' + f for f in ('silk_encode_indices', 'silk_encode_pulses', 'silk_stereo_encode_pred',
                                                             'silk_stereo_encode_mid_only', 'ec_enc_patch_initial_bits',
-                                                            'silk_decode_indices', 'silk_decode_pulses'))]
+                                                            'silk_decode_indices', 'silk_decode_pulses', 'celt_encode_with_ec'))]
 PENDING_FF = 'carry-pending 0xFF'
 
 
@@ -180,7 +185,7 @@ def ties(ctx):
     out.append(_tidy(common.run_tie('rangecoder-silkpacket', [hp, 'rand', str(ctx.seed), str(QUICK_SPACKET if ctx.quick else THOROUGH_SPACKET)]),
                      'rangecoder:spacket:line'))
     out.append(_tidy(common.run_tie('rangecoder-opusframe', [hp, 'oframe', str(ctx.seed), str(QUICK_OFRAME if ctx.quick else THOROUGH_OFRAME)]),
-                     'rangecoder:oframe:line'))
+                     None))
     return out
 
 
@@ -419,8 +424,8 @@ def replay(ctx, obj):
             if not verdict.startswith('P OK'):
                 rc = 1
         op = inp.split(' ')[1] if ' ' in inp else ''
-        if op == 'spacket':
-            print('  a `spacket` record is what the real silk_Encode decided to write for generated audio; it cannot be fed back into the '
+        if op in ('spacket', 'oframe', 'oframer'):
+            print('  a `spacket` / `oframe` record is what the real encoder decided to write for generated audio; it cannot be fed back into the '
                   'encoder. Re-run: python3 tools/check.py C08 --tier %s (VERIF_SEED=%s)' % (obj.get('tier', 'quick'), obj.get('seed', 1)))
             rc = 1
             continue
